@@ -87,6 +87,7 @@ func (r *Report) ob(rule string, ok bool) {
 	r.mu.Lock()
 	defer r.mu.Unlock()
 	r.Obligations++
+	r.Evaluations++
 	s := r.stat(rule)
 	s.Obligations++
 	if ok {
@@ -133,6 +134,9 @@ func contains(ss []string, s string) bool {
 func (r *Report) sample(s interface{}) {
 	r.mu.Lock()
 	defer r.mu.Unlock()
+	if b, err := json.Marshal(s); err == nil {
+		r.Distinct[string(b)] = true
+	}
 	if len(r.Samples) < 12 {
 		r.Samples = append(r.Samples, s)
 	}
